@@ -683,8 +683,22 @@ fn check_mutation(rep: &Reporter, seed: &Seed, file: usize, pos: usize, val: u8,
 
 fn check_missing_middle(rep: &Reporter, seed: &Seed, st: &ImgStats) -> u64 {
     let mut n = 0;
-    for i in 1..seed.files.len().saturating_sub(1) {
+    // the newest chunk as written, and as a crash right after its creation
+    // leaves it: empty, or cut inside its first record
+    let newest_len = seed.files.last().map(|f| f.1.len()).unwrap_or(0);
+    let head_len = seed.chunks.last().map(|c| c.lens[0] as usize).unwrap_or(0);
+    let mut newest_cuts: Vec<Option<usize>> = vec![None, Some(0)];
+    if head_len > 1 {
+        newest_cuts.push(Some(head_len / 2));
+    }
+    for (i, cut) in (1..seed.files.len().saturating_sub(1)).flat_map(|i| newest_cuts.iter().map(move |c| (i, *c))) {
         let mut files = seed.files.clone();
+        if let Some(c) = cut {
+            if c >= newest_len {
+                continue;
+            }
+            files.last_mut().unwrap().1.truncate(c);
+        }
         let removed = files.remove(i);
         st.opens.fetch_add(1, Ordering::Relaxed);
         n += 1;
@@ -692,14 +706,16 @@ fn check_missing_middle(rep: &Reporter, seed: &Seed, st: &ImgStats) -> u64 {
         let mk = |key: &str, what: String| Violation {
             prop: rep.prop.clone(),
             key: key.to_string(),
-            what: format!("{} | middle chunk {} removed | seed [{}] cfg {}", what, removed.0, hist_short(&seed.hist), seed.cfg.short()),
-            replay: json!({"engine":"imagex-missing","seed": seed_json(seed), "removed": removed.0}),
+            what: format!("{} | middle chunk {} removed, newest chunk cut at {:?} | seed [{}] cfg {}", what, removed.0, cut, hist_short(&seed.hist), seed.cfg.short()),
+            replay: json!({"engine":"imagex-missing","seed": seed_json(seed), "removed": removed.0, "newest_cut": cut}),
         };
         match &run.opened {
             Opened::Err(_) => {
                 st.outcome("missing-chunk-refused");
-                if run.files_after != files {
-                    rep.report(mk("refused-open-modified-files", "open refused but files changed".to_string()));
+                let n = files.len();
+                let older_same = files[..n - 1].iter().all(|f| run.files_after.iter().any(|g| g == f));
+                if !older_same {
+                    rep.report(mk("refused-open-modified-files", "open refused but a non-newest file changed".to_string()));
                 }
             }
             Opened::Panic(m) => rep.report(mk("open-panics-on-missing-chunk", format!("open panicked: {}", m))),
